@@ -9,7 +9,7 @@ cd /verif
 # the run on a mutated tree must not leave its evidence behind
 EV=/verif/evidence/$ID.json; [ -f $EV ] && cp $EV /var/tmp/evidence-$ID.$$.json
 OUT=$(./check $ID --tier $TIER 2>&1); RC=$?
-git -C /repo checkout -- .
+git -C /repo apply -R "$P" 2>/dev/null; git -C /repo checkout -- .
 [ -f /var/tmp/evidence-$ID.$$.json ] && mv /var/tmp/evidence-$ID.$$.json $EV
 echo "$OUT" | grep -E "VIOLATION|KNOWN-FINDING|BUILD-FAILED|HARNESS" | head -5 | cut -c1-300
 echo "$OUT" | tail -1 | cut -c1-200
